@@ -367,14 +367,14 @@ class smrt_matrix(object):
             elif self.mtype == "diagonal4":
                 pola, inc = self.values.shape
 
-                mat = np.diagflat(self.values).reshape((pola, pola, inc, inc))
+                mat = np.diagflat(self.values).reshape((pola, inc, pola, inc)).swapaxes(1, 2)
                 return smrt_matrix(mat, mtype='dense4')
 
             elif self.mtype == "diagonal5":
                 pola, mode, inc = self.values.shape
 
                 # in numba with two loops it would be much faster
-                mat = np.stack([np.diagflat(self.values[:, i, :]).reshape((pola, pola, inc, inc)) for i in range(mode)])
+                mat = np.stack([np.diagflat(self.values[:, i, :]).reshape((pola, inc, pola, inc)).swapaxes(1, 2) for i in range(mode)])
                 mat = np.moveaxis(mat, 0, 2)
 
                 return smrt_matrix(mat, mtype='dense5')
